@@ -66,16 +66,27 @@ def determinism(props: list[str], verif_seed: int, per_prop: int, tier: str = "q
     for t in threads:
         t.join()
     bad = 0
+    hash_sensitive: dict[str, int] = {}
     for key, lst in sorted(results.items()):
         fps = {fp for _, _, fp in lst}
-        if len(fps) != 1 or len(lst) != 3:
+        by_hs: dict[int, set] = {}
+        for _, hs, fp in lst:
+            by_hs.setdefault(hs, set()).add(fp)
+        verdicts = {fp[1:] for fp in fps}          # signatures, oracle-check counters, harness error
+        if len(lst) != 3 or any(len(v) > 1 for v in by_hs.values()) or len(verdicts) != 1:
+            # two processes with the same PYTHONHASHSEED disagree, or the verdict itself depends on the hash seed
             bad += 1
             print(f"NONDETERMINISTIC {key}: {lst}")
+        elif len(fps) != 1:
+            # same verdict and counters, another request order / body under another PYTHONHASHSEED: the code under
+            # test iterates sets.  The hash seed is part of every replay file, so this is recorded, not a failure.
+            hash_sensitive[key[0]] = hash_sensitive.get(key[0], 0) + 1
         elif lst[0][2][3]:
             bad += 1
             print(f"HARNESS ERROR {key}: {lst[0][2][3][:500]}")
-    print(f"determinism: {len(results)} runs x3, {bad} disagreements, {len(errors)} worker errors, "
-          f"{time.monotonic() - t0:.1f}s")
+    print(f"determinism: {len(results)} runs x3 (two processes with the run's PYTHONHASHSEED, one with another), "
+          f"{bad} disagreements, {len(errors)} worker errors, {time.monotonic() - t0:.1f}s")
+    print(f"traces that differ only under another PYTHONHASHSEED (verdict and counters equal): {hash_sensitive}")
     for e in errors:
         print("ERROR", e)
     return 0 if (bad == 0 and not errors and results) else 2
